@@ -43,6 +43,9 @@ type C12Op struct {
 	To    int       `json:"to"`
 	Coins []C12Coin `json:"coins,omitempty"`
 	Ratio string    `json:"ratio,omitempty"` // LegacyDec string
+	// Raw: the message carries the coin list as drawn (possibly unsorted, with a denomination twice, with zero entries)
+	// instead of the normalised one; if such a message is accepted, the stated amount is the per-denomination sum
+	Raw bool `json:"raw,omitempty"`
 }
 
 type C12Case struct {
@@ -108,6 +111,12 @@ func genC12Case(t *rapid.T) C12Case {
 			for j := 0; j < k; j++ {
 				op.Coins = append(op.Coins, genC12Coin(t))
 			}
+			if rapid.IntRange(0, 4).Draw(t, "raw") == 0 {
+				op.Raw = true
+				if rapid.Bool().Draw(t, "raw-dup") {
+					op.Coins = append(op.Coins, op.Coins[rapid.IntRange(0, len(op.Coins)-1).Draw(t, "raw-dup-i")])
+				}
+			}
 		case "ratio":
 			op.Ratio = rapid.SampledFrom([]string{
 				"1.000000000000000000", "0.500000000000000000", "0.333333333333333333", "0.000000000000000001",
@@ -167,6 +176,7 @@ func runC12(st *ev.Stats, c C12Case) string {
 	for step, op := range c.Ops {
 		from, to := c12Accs[op.From], c12Accs[op.To]
 		// resolve coins
+		var rawCoins sdk.Coins
 		resolve := func(src map[string]*big.Int) (sdk.Coins, bool) {
 			var coins sdk.Coins
 			for _, cc := range op.Coins {
@@ -193,6 +203,11 @@ func runC12(st *ev.Stats, c C12Case) string {
 				out = append(out, sdk.Coin{Denom: d, Amount: sdkmath.NewIntFromBigInt(v)})
 			}
 			sort.Slice(out, func(i, j int) bool { return out[i].Denom < out[j].Denom })
+			rawCoins = out
+			if op.Raw {
+				rawCoins = coins
+				return out, coins.IsValid()
+			}
 			return out, out.IsValid()
 		}
 
@@ -210,7 +225,7 @@ func runC12(st *ev.Stats, c C12Case) string {
 			continue
 		case "fund":
 			coins, valid := resolve(m.bank[op.From])
-			msg = ucdaotypes.NewMsgFund(coins, from.Addr)
+			msg = ucdaotypes.NewMsgFund(rawCoins, from.Addr)
 			moved = coins
 			ok := valid && m.enabled
 			for _, x := range coins {
@@ -251,7 +266,7 @@ func runC12(st *ev.Stats, c C12Case) string {
 			mustSucceed = m.enabled && inRange && allPos && len(moved) > 0
 		case "amount":
 			coins, valid := resolve(m.dao[op.From])
-			msg = ucdaotypes.NewMsgTransferOwnershipWithAmount(from.Addr, to.Addr, coins)
+			msg = ucdaotypes.NewMsgTransferOwnershipWithAmount(from.Addr, to.Addr, rawCoins)
 			moved = coins
 			ok := valid && m.enabled
 			for _, x := range coins {
